@@ -41,6 +41,13 @@ for d in sorted(glob.glob(V+'/seeded/*/meta.json')):
                 ob=l.split('obligation=')[1].split()[0]; break
     except Exception: pass
     rows.append('| %s | %s | %s | %s | %s |\n'%(name,m['property'],s,('`%s`'%ob) if ob else ('exit %s'%m['check_exit']),notes.get(name,'')))
+import subprocess
+log=subprocess.check_output(['git','-C','/repo','log','--format=%h %s','--reverse']).decode().splitlines()
+fixes=[l for l in log if l.split(' ',1)[1].startswith('fix:')]
+verifs=[l for l in log if l.split(' ',1)[1].startswith(('verif:','wip'))]
+rows.append('\n### Changes made to /repo\n\nUnguarded repairs (`fix:` commits, one per defect):\n\n')
+for l in fixes: rows.append('* `%s` %s\n'%tuple(l.split(' ',1)))
+rows.append('\nGuarded additions (%d `verif:` commits): only the comment-only files `<pkg>/contracts_verif.go` (build tag `verif`, no code); they are listed in MANIFEST.hooks.source_commits. No instrumentation hook was needed: the verifier reads the source, it does not run it.\n'%len(verifs))
 i=tail.index('## 9. Layout')
 out.append(tail[:i]); out.extend(rows); out.append('\n'); out.append(tail[i:])
 open(V+'/DESIGN.md','w').write(''.join(out))
